@@ -49,6 +49,10 @@ def _gen_step(ci, dom, two):
             s = gen.draw_take(draw, w)
             if s is not None:
                 return s
+        # clear()/reset() as the FIRST access of a freshly buffered root is its own code path
+        if w.stack and w.log and w.log[-1]["t"] in ("enter_obj", "enter_cls") and draw(st.integers(0, 2)) == 0:
+            r0 = draw(st.sampled_from(roots))
+            return gen.draw_mutator(draw, w, r0, dom, methods=["reset", "reset", "clear"], p_raise=0)
         hi = gen.pick_handle(draw, w)
         if hi is None:
             return None
